@@ -861,6 +861,7 @@ class BaseConnector:
                 self._cleanup_closed_transports.append(transport)
             return
 
+        protocol.start_idle()
         self._conns[key].append((protocol, monotonic()))
 
         if self._cleanup_handle is None:
